@@ -290,7 +290,8 @@ class Result:
 
 class _WriteFault:
     """File-system fault seam: while installed, opening the planned file for writing fails with the planned errno (disk full,
-    file made immutable, quota).  Reads, and writes to any other path, pass through."""
+    file made immutable, quota).  Reads, and writes to any other path, pass through.  With plan["mode"] == "read" it is the
+    opening for reading that fails instead (permissions, a stale network mount), and writes pass through."""
 
     def __init__(self, cwd, plan):
         import builtins
@@ -298,6 +299,7 @@ class _WriteFault:
         self.cwd = cwd
         self.target = os.path.realpath(os.path.join(cwd, plan["path"]))
         self.errno = plan.get("errno", errno.ENOSPC)
+        self.on_read = plan.get("mode") == "read"
         self.fired = 0
         self._builtins, self._io = builtins, io
         self._orig_open = builtins.open
@@ -305,7 +307,8 @@ class _WriteFault:
 
     def _wrap(self, orig):
         def opener(file, mode="r", *a, **kw):
-            if isinstance(mode, str) and any(ch in mode for ch in "wax+") and isinstance(file, (str, bytes, os.PathLike)):
+            if isinstance(mode, str) and (any(ch in mode for ch in "wax+") != self.on_read) and \
+                    isinstance(file, (str, bytes, os.PathLike)):
                 try:
                     full = os.path.realpath(os.path.join(self.cwd, os.fsdecode(file)))
                 except Exception:
